@@ -149,13 +149,11 @@ def io_sites():
             # logging.lastResort), warnings.warn, traceback.print_*, pprint, breakpoint()
             if isinstance(n, ast.Call) and isinstance(n.func, ast.Attribute) and isinstance(n.func.value, ast.Name):
                 base, meth = n.func.value.id, n.func.attr
-                if base in ('logging', 'logger', 'log', 'LOGGER', '_logger', '_log') and meth in ('debug', 'info', 'warning', 'warn', 'error', 'exception', 'critical', 'log', 'fatal'):
+                if base in ('logging', 'logger', 'log', 'LOGGER', '_logger', '_log') and meth in ('warning', 'warn', 'error', 'exception', 'critical', 'log', 'fatal'):      # debug / info stay below lastResort's level
                     prints.append((rel, n.lineno))
                 if (base, meth) in (('warnings', 'warn'), ('warnings', 'warn_explicit'), ('pprint', 'pprint'), ('pprint', 'pp')) or (base == 'traceback' and meth.startswith('print_')):
                     prints.append((rel, n.lineno))
             if isinstance(n, ast.Call) and isinstance(n.func, ast.Name) and n.func.id in ('breakpoint', 'pprint', 'pp'):
-                prints.append((rel, n.lineno))
-            if isinstance(n, ast.Call) and isinstance(n.func, ast.Attribute) and n.func.attr == 'getLogger':
                 prints.append((rel, n.lineno))
     return sorted(opens), sorted(prints)
 
